@@ -225,3 +225,796 @@ Section Pieces.
       exact H.
   Qed.
 End Pieces.
+
+(* ------------------------------------------------------------------------------------ effects and conditions *)
+Section Positions.
+  Variable P : problem_desc.
+  Hypothesis WF : wf P.
+
+  Lemma wf_parts :
+    forallb (wf_eff P) (Spec.all_effects P) = true
+    /\ forallb (fun pr => forallb wf_process_eff (pr_effs pr)) (p_processes P) = true
+    /\ forallb (fun d => forallb (M.declared P) (fluents_of (de d))) (Spec.durations P) = true
+    /\ forallb (fun c => forallb (M.declared P) (fluents_of (ce (fst c)))) (Spec.costs P) = true
+    /\ forallb wf_fdecl (p_fluents P) = true.
+  Proof.
+    pose proof WF as W. unfold wf, wfb in W. repeat (apply andb_true_iff in W; destruct W as [W ?]).
+    repeat split; assumption.
+  Qed.
+
+  Lemma wf_effect e : In e (Spec.all_effects P) -> wf_eff P e = true.
+  Proof. destruct wf_parts as (H & _). rewrite forallb_forall in H. apply H. Qed.
+
+  Lemma wf_process pr e : In pr (p_processes P) -> In e (pr_effs pr) -> wf_process_eff e = true.
+  Proof.
+    destruct wf_parts as (_ & H & _). rewrite forallb_forall in H. intros A B. specialize (H pr A).
+    rewrite forallb_forall in H. apply H. exact B.
+  Qed.
+
+  (* every effect of the problem either belongs to a process or has its update_problem_kind_effect features in raw *)
+  Lemma effect_in_raw e :
+    In e (Spec.all_effects P) ->
+    (exists pr, In pr (p_processes P) /\ In e (pr_effs pr)) \/ incl (M.effect_feats P e) (M.raw P).
+  Proof.
+    unfold Spec.all_effects. rewrite !in_app_iff, !in_flat_map.
+    intros [(a & Ha & He) | [(ev & Hev & He) | [(pr & Hpr & He) | (te & Hte & He)]]].
+    - right. intros f Hf. apply (raw_action P a f Ha). destruct a as [i|d]; simpl in *.
+      + unfold M.iaction_feats. rewrite !in_app_iff. right. right. right. right. left. eapply fm_in; eauto.
+      + apply in_app_or in He. unfold M.daction_feats. rewrite !in_app_iff.
+        destruct He as [He|He]; apply in_map_iff in He; destruct He as ((t & e') & E & He); simpl in E; subst e'.
+        * right. right. right. right. left. eapply fm_in; [exact He|]. unfold M.timed_effect_feats. simpl.
+          apply in_or_app. right. exact Hf.
+        * right. right. right. right. right. left. eapply fm_in; [exact He|]. unfold M.timed_ceffect_feats. simpl.
+          apply in_or_app. right. exact Hf.
+    - right. intros f Hf. apply (raw_event P ev f Hev). unfold M.event_feats. rewrite !in_app_iff.
+      right. right. left. eapply fm_in; eauto.
+    - left. eauto.
+    - right. intros f Hf. eapply raw_teff; eauto.
+  Qed.
+
+  (* conditions: each one is the literal `true` (an unconditional effect) or went through update_problem_kind_expression *)
+  Lemma condition_in_raw x :
+    In x (Spec.conditions P) -> is_true x = true \/ exists c, ce c = x /\ incl (M.expr_feats c) (M.raw P).
+  Proof.
+    unfold Spec.conditions. rewrite !in_app_iff, !in_flat_map, !in_map_iff.
+    intros [(a & Ha & Hx) | [(ev & Hev & Hx) | [(pr & Hpr & Hx) | [(e & Ex & He) | [(g & Ex & Hg) |
+            [(tg & Htg & Hx) | [(tc & Ex & Htc) | (m & Hm & Hx)]]]]]]].
+    - right. destruct a as [i|d]; simpl in Hx; apply in_map_iff in Hx.
+      + destruct Hx as (c & E & Hc). exists c. split; [exact E|]. intros f Hf. apply (raw_action P _ f Ha). simpl.
+        unfold M.iaction_feats. rewrite !in_app_iff. right. right. right. left. eapply fm_in; eauto.
+      + destruct Hx as ((iv & c) & E & Hc). exists c. split; [exact E|]. intros f Hf. apply (raw_action P _ f Ha). simpl.
+        unfold M.daction_feats. rewrite !in_app_iff. right. right. right. left. eapply fm_in; [exact Hc|].
+        unfold M.timed_condition_feats. apply in_or_app. right. exact Hf.
+    - right. apply in_map_iff in Hx. destruct Hx as (c & E & Hc). exists c. split; [exact E|].
+      intros f Hf. apply (raw_event P ev f Hev). unfold M.event_feats. rewrite !in_app_iff. right. left. eapply fm_in; eauto.
+    - right. apply in_map_iff in Hx. destruct Hx as (c & E & Hc). exists c. split; [exact E|].
+      intros f Hf. apply (raw_process P pr f Hpr). unfold M.process_feats. rewrite !in_app_iff. right. left. eapply fm_in; eauto.
+    - destruct (is_true x) eqn:T; [left; reflexivity | right]. exists (ef_cond e). split; [exact Ex|].
+      destruct (effect_in_raw e He) as [(pr & Hpr & Hin) | Hincl].
+      + exfalso. pose proof (wf_process pr e Hpr Hin) as W. unfold wf_process_eff in W.
+        apply andb_true_iff in W. destruct W as [W _]. apply andb_true_iff in W. destruct W as [W _].
+        rewrite Ex in W. congruence.
+      + intros f Hf. apply Hincl. unfold M.effect_feats, is_conditional. rewrite Ex, T. simpl.
+        rewrite !in_app_iff. left. left. exact Hf.
+    - right. exists g. split; [exact Ex|]. intros f Hf. eapply raw_goal; eauto.
+    - right. apply in_map_iff in Hx. destruct Hx as (c & E & Hc). exists c. split; [exact E|].
+      intros f Hf. eapply raw_tgoal; eauto.
+    - right. exists tc. split; [exact Ex|]. intros f Hf. eapply raw_traj; [exact Htc|]. right. exact Hf.
+    - right. destruct m; simpl in Hx; try (destruct Hx; fail); apply in_map_iff in Hx; destruct Hx as (c & E & Hc);
+        exists c; (split; [exact E|]); intros f Hf; apply (raw_metric P _ f Hm); simpl; right;
+        apply in_or_app; left; eapply fm_in; eauto.
+  Qed.
+
+  Lemma cond_feature p f :
+    (forall x, p x = true -> tag x <> 0%N /\ forall c, In (tag x) (ops_of (ce c)) -> In f (M.expr_feats c)) ->
+    Spec.some_cond P p = true -> In f (M.raw P).
+  Proof.
+    intros Hp H. unfold Spec.some_cond in H. apply existsb_exists in H. destruct H as (x & Hx & Mx).
+    destruct (condition_in_raw x Hx) as [T | (c & E & Hincl)].
+    - destruct x; try discriminate. destruct b; try discriminate. simpl in Mx. rewrite orb_false_r in Mx.
+      destruct (Hp _ Mx) as [Hne _]. exfalso. apply Hne. reflexivity.
+    - subst x. apply mentions_ops in Mx. destruct Mx as (y & Py & Iy). apply Hincl. apply (Hp y Py). exact Iy.
+  Qed.
+
+  Ltac in_expr_feats := unfold M.expr_feats; cbv zeta; rewrite !in_app_iff.
+
+  Lemma covers_NEGATIVE : Spec.some_cond P is_not = true -> In f_NEGATIVE_CONDITIONS (M.raw P).
+  Proof.
+    apply cond_feature. intros x Hx. destruct x; try discriminate. split; [discriminate|]. intros c Hc.
+    in_expr_feats. right. left. apply in_clause. apply memN_In. exact Hc.
+  Qed.
+  Lemma covers_DISJUNCTIVE : Spec.some_cond P is_or_implies = true -> In f_DISJUNCTIVE_CONDITIONS (M.raw P).
+  Proof.
+    apply cond_feature. intros x Hx. destruct x; try discriminate; (split; [discriminate|]); intros c Hc;
+      in_expr_feats; right; right; left; apply in_clause; apply orb_true_iff; [left | right]; apply memN_In; exact Hc.
+  Qed.
+  Lemma covers_EQUALITIES : Spec.some_cond P is_equals = true -> In f_EQUALITIES (M.raw P).
+  Proof.
+    apply cond_feature. intros x Hx. destruct x; try discriminate. split; [discriminate|]. intros c Hc.
+    in_expr_feats. left. apply in_clause. apply memN_In. exact Hc.
+  Qed.
+  Lemma covers_EXISTENTIAL : Spec.some_cond P is_exists = true -> In f_EXISTENTIAL_CONDITIONS (M.raw P).
+  Proof.
+    apply cond_feature. intros x Hx. destruct x; try discriminate. split; [discriminate|]. intros c Hc.
+    in_expr_feats. right. right. right. left. apply in_clause. apply memN_In. exact Hc.
+  Qed.
+  Lemma covers_UNIVERSAL : Spec.some_cond P is_forall = true -> In f_UNIVERSAL_CONDITIONS (M.raw P).
+  Proof.
+    apply cond_feature. intros x Hx. destruct x; try discriminate. split; [discriminate|]. intros c Hc.
+    in_expr_feats. right. right. right. right. left. apply in_clause. apply memN_In. exact Hc.
+  Qed.
+  Lemma covers_IFUN_COND : Spec.some_cond P is_ifun = true -> In f_INTERPRETED_FUNCTIONS_IN_CONDITIONS (M.raw P).
+  Proof.
+    apply cond_feature. intros x Hx. destruct x; try discriminate. split; [discriminate|]. intros c Hc.
+    in_expr_feats. right. right. right. right. right. apply in_clause. apply memN_In. exact Hc.
+  Qed.
+
+
+  (* ---- effect kinds ---- *)
+  Lemma effect_feature q f :
+    (forall e, q e = true -> wf_process_eff e = false /\ In f (M.effect_feats P e)) ->
+    Spec.some_effect P q = true -> In f (M.raw P).
+  Proof.
+    intros Hq H. unfold Spec.some_effect in H. apply existsb_exists in H. destruct H as (e & He & Qe).
+    destruct (Hq e Qe) as [NW Hf].
+    destruct (effect_in_raw e He) as [(pr & Hpr & Hin) | Hincl]; [|apply Hincl; exact Hf].
+    rewrite (wf_process pr e Hpr Hin) in NW. discriminate.
+  Qed.
+
+  Lemma covers_CONDITIONAL : Spec.some_effect P is_conditional = true -> In f_CONDITIONAL_EFFECTS (M.raw P).
+  Proof.
+    apply effect_feature. intros e He. split.
+    - unfold wf_process_eff. unfold is_conditional in He. apply negb_true_iff in He. rewrite He. reflexivity.
+    - unfold M.effect_feats. rewrite He. cbv zeta. rewrite !in_app_iff. left. right. left. reflexivity.
+  Qed.
+  Lemma covers_FORALL_EFFECTS :
+    Spec.some_effect P (fun e => nonempty (ef_forall e)) = true -> In f_FORALL_EFFECTS (M.raw P).
+  Proof.
+    apply effect_feature. intros e He. split.
+    - unfold wf_process_eff. rewrite He. simpl. rewrite andb_false_r. reflexivity.
+    - unfold M.effect_feats. rewrite He. cbv zeta. rewrite !in_app_iff. right. left. left. reflexivity.
+  Qed.
+  Lemma covers_INCREASE :
+    Spec.some_effect P (fun e => match ef_kind e with KInc => true | _ => false end) = true -> In f_INCREASE_EFFECTS (M.raw P).
+  Proof.
+    apply effect_feature. intros e He. destruct (ef_kind e) eqn:K; try discriminate. split.
+    - unfold wf_process_eff. rewrite K. apply andb_false_r.
+    - unfold M.effect_feats. rewrite K. cbv zeta. rewrite !in_app_iff. right. right. left. reflexivity.
+  Qed.
+  Lemma covers_DECREASE :
+    Spec.some_effect P (fun e => match ef_kind e with KDec => true | _ => false end) = true -> In f_DECREASE_EFFECTS (M.raw P).
+  Proof.
+    apply effect_feature. intros e He. destruct (ef_kind e) eqn:K; try discriminate. split.
+    - unfold wf_process_eff. rewrite K. apply andb_false_r.
+    - unfold M.effect_feats. rewrite K. cbv zeta. rewrite !in_app_iff. right. right. left. reflexivity.
+  Qed.
+
+  Lemma continuous_feature q f :
+    (forall es e, In e es -> q e = true -> In f (M.continuous_feats es)) ->
+    existsb q (Spec.continuous_effects P) = true -> In f (M.raw P).
+  Proof.
+    intros Hq H. apply existsb_exists in H. destruct H as (e & He & Qe). unfold Spec.continuous_effects in He.
+    apply in_app_or in He. destruct He as [He|He]; apply in_flat_map in He; destruct He as (a & Ha & He).
+    - destruct a as [i|d]; [destruct He|]. apply (raw_action P _ f Ha). simpl. unfold M.daction_feats.
+      rewrite !in_app_iff. do 8 right. eapply Hq; eauto.
+    - apply (raw_process P a f Ha). unfold M.process_feats. rewrite !in_app_iff. right. right. eapply Hq; eauto.
+  Qed.
+  Lemma covers_INCREASE_CONTINUOUS :
+    existsb (fun e => match ef_kind e with KCInc => true | _ => false end) (Spec.continuous_effects P) = true ->
+    In f_INCREASE_CONTINUOUS_EFFECTS (M.raw P).
+  Proof.
+    apply continuous_feature. intros es e He Q. unfold M.continuous_feats. apply in_or_app. left.
+    eapply fm_in; [exact He|]. destruct (ef_kind e); try discriminate. left. reflexivity.
+  Qed.
+  Lemma covers_DECREASE_CONTINUOUS :
+    existsb (fun e => match ef_kind e with KCDec => true | _ => false end) (Spec.continuous_effects P) = true ->
+    In f_DECREASE_CONTINUOUS_EFFECTS (M.raw P).
+  Proof.
+    apply continuous_feature. intros es e He Q. unfold M.continuous_feats. apply in_or_app. left.
+    eapply fm_in; [exact He|]. destruct (ef_kind e); try discriminate. left. reflexivity.
+  Qed.
+
+  (* ---- typing ---- *)
+  Lemma param_type_feats t : incl (M.type_feats t) (M.param_feats t).
+  Proof. intros f Hf. unfold M.param_feats. apply in_or_app. left. exact Hf. Qed.
+
+  Lemma type_in_raw t : In t (Spec.used_types P) -> incl (M.type_feats t) (M.raw P).
+  Proof.
+    unfold Spec.used_types. rewrite !in_app_iff, !in_flat_map.
+    intros [Ho | [(fd & Hfd & Ht) | [(a & Ha & Ht) | [(ev & Hev & Ht) | [(pr & Hpr & Ht) | (e & He & Ht)]]]]] f Hf.
+    - eapply raw_objty; eauto.
+    - apply (raw_fluent P fd f Hfd). unfold M.fluent_feats. cbv zeta. rewrite !in_app_iff. destruct Ht as [Ht|Ht].
+      + subst t. left. destruct (fd_ty fd); try (destruct Hf; fail). simpl. rewrite orb_true_r. exact Hf.
+      + right. right. eapply fm_in; [exact Ht|]. apply in_or_app. left. exact Hf.
+    - apply (raw_action P a f Ha). destruct a as [i|d]; simpl in *.
+      + unfold M.iaction_feats. rewrite !in_app_iff. left. eapply fm_in; [exact Ht|]. apply param_type_feats. exact Hf.
+      + unfold M.daction_feats. rewrite !in_app_iff. left. eapply fm_in; [exact Ht|]. apply param_type_feats. exact Hf.
+    - apply (raw_event P ev f Hev). unfold M.event_feats. rewrite !in_app_iff. left.
+      eapply fm_in; [exact Ht|]. apply param_type_feats. exact Hf.
+    - apply (raw_process P pr f Hpr). unfold M.process_feats. rewrite !in_app_iff. left.
+      eapply fm_in; [exact Ht|]. apply param_type_feats. exact Hf.
+    - apply in_map_iff in Ht. destruct Ht as ((v & t') & E & Hv). simpl in E. subst t'.
+      destruct (effect_in_raw e He) as [(pr & Hpr & Hin) | Hincl].
+      + exfalso. pose proof (wf_process pr e Hpr Hin) as W. unfold wf_process_eff in W.
+        apply andb_true_iff in W. destruct W as [W _]. apply andb_true_iff in W. destruct W as [_ W].
+        apply negb_true_iff in W. rewrite (nonempty_in _ _ Hv) in W. discriminate.
+      + apply Hincl. unfold M.effect_feats. cbv zeta. rewrite !in_app_iff. right. left.
+        rewrite (nonempty_in _ _ Hv). right. eapply fm_in; [exact Hv|]. exact Hf.
+  Qed.
+
+  Lemma covers_FLAT :
+    existsb Spec.is_user (Spec.used_types P) && negb (existsb Spec.has_father (Spec.used_types P)) = true ->
+    In f_FLAT_TYPING (M.raw P).
+  Proof.
+    intro H. apply andb_true_iff in H. destruct H as [H _]. apply existsb_exists in H. destruct H as (t & Ht & U).
+    apply (type_in_raw t Ht). destruct t; try discriminate. left. reflexivity.
+  Qed.
+  Lemma covers_HIERARCHICAL :
+    existsb Spec.has_father (Spec.used_types P) = true -> In f_HIERARCHICAL_TYPING (M.raw P).
+  Proof.
+    intro H. apply existsb_exists in H. destruct H as (t & Ht & U).
+    apply (type_in_raw t Ht). destruct t; try discriminate. simpl in U. subst. right. left. reflexivity.
+  Qed.
+
+
+  (* ---- fluent declarations, parameters ---- *)
+  Lemma covers_OBJECT_FLUENTS :
+    existsb (fun fd => Spec.is_user (fd_ty fd)) (p_fluents P) = true -> In f_OBJECT_FLUENTS (M.raw P).
+  Proof.
+    intro H. apply existsb_exists in H. destruct H as (fd & Hfd & U). apply (raw_fluent P fd _ Hfd).
+    unfold M.fluent_feats. cbv zeta. rewrite !in_app_iff. right. left. destruct (fd_ty fd); try discriminate. left. reflexivity.
+  Qed.
+  Lemma covers_BOUNDED_TYPES :
+    existsb (fun fd => Spec.num_bounded (fd_ty fd)) (p_fluents P) = true -> In f_BOUNDED_TYPES (M.raw P).
+  Proof.
+    intro H. apply existsb_exists in H. destruct H as (fd & Hfd & U). apply (raw_fluent P fd _ Hfd).
+    unfold M.fluent_feats. cbv zeta. rewrite !in_app_iff. right. left.
+    destruct (fd_ty fd); try discriminate; simpl in U; apply in_or_app; left; apply in_clause; exact U.
+  Qed.
+  Lemma fparam_feature q f :
+    (forall t, q t = true -> In f (M.type_feats t ++ match t with
+                                                      | TBool => [f_BOOL_FLUENT_PARAMETERS]
+                                                      | TInt _ _ => [f_BOUNDED_INT_FLUENT_PARAMETERS]
+                                                      | _ => [] end)) ->
+    Spec.some_fparam P q = true -> In f (M.raw P).
+  Proof.
+    intros Hq H. unfold Spec.some_fparam in H. apply existsb_exists in H. destruct H as (t & Ht & Q).
+    apply in_flat_map in Ht. destruct Ht as (fd & Hfd & Ht). apply (raw_fluent P fd _ Hfd).
+    unfold M.fluent_feats. cbv zeta. rewrite !in_app_iff. right. right. eapply fm_in; [exact Ht|]. apply Hq. exact Q.
+  Qed.
+  Lemma covers_BOOL_FLUENT_PARAMETERS : Spec.some_fparam P Spec.is_bool = true -> In f_BOOL_FLUENT_PARAMETERS (M.raw P).
+  Proof. apply fparam_feature. intros t Q. destruct t; try discriminate. simpl. left. reflexivity. Qed.
+  Lemma covers_BOUNDED_INT_FLUENT_PARAMETERS :
+    Spec.some_fparam P Spec.is_int = true -> In f_BOUNDED_INT_FLUENT_PARAMETERS (M.raw P).
+  Proof. apply fparam_feature. intros t Q. destruct t; try discriminate. simpl. left. reflexivity. Qed.
+
+  Lemma aparam_feature q f :
+    (forall t, q t = true -> In f (M.param_feats t)) -> Spec.some_aparam P q = true -> In f (M.raw P).
+  Proof.
+    intros Hq H. unfold Spec.some_aparam in H. apply existsb_exists in H. destruct H as (t & Ht & Q).
+    apply in_flat_map in Ht. destruct Ht as (a & Ha & Ht). apply (raw_action P a _ Ha).
+    destruct a as [i|d]; simpl in *; [unfold M.iaction_feats | unfold M.daction_feats]; rewrite !in_app_iff; left;
+      (eapply fm_in; [exact Ht|]); apply Hq; exact Q.
+  Qed.
+  Lemma covers_BOOL_ACTION_PARAMETERS : Spec.some_aparam P Spec.is_bool = true -> In f_BOOL_ACTION_PARAMETERS (M.raw P).
+  Proof. apply aparam_feature. intros t Q. destruct t; try discriminate. simpl. left. reflexivity. Qed.
+  Lemma covers_REAL_ACTION_PARAMETERS : Spec.some_aparam P Spec.is_real = true -> In f_REAL_ACTION_PARAMETERS (M.raw P).
+  Proof. apply aparam_feature. intros t Q. destruct t; try discriminate. simpl. left. reflexivity. Qed.
+  Lemma covers_BOUNDED_INT_ACTION_PARAMETERS :
+    Spec.some_aparam P (fun t => match t with TInt true true => true | _ => false end) = true ->
+    In f_BOUNDED_INT_ACTION_PARAMETERS (M.raw P).
+  Proof.
+    apply aparam_feature. intros t Q. destruct t as [|lo hi| |]; try discriminate. destruct lo, hi; try discriminate.
+    simpl. left. reflexivity.
+  Qed.
+  Lemma covers_UNBOUNDED_INT_ACTION_PARAMETERS :
+    Spec.some_aparam P (fun t => match t with TInt lo hi => negb (lo && hi) | _ => false end) = true ->
+    In f_UNBOUNDED_INT_ACTION_PARAMETERS (M.raw P).
+  Proof.
+    apply aparam_feature. intros t Q. destruct t as [|lo hi| |]; try discriminate. destruct lo, hi; try discriminate;
+    simpl; left; reflexivity.
+  Qed.
+
+  (* ---- trajectory constraints ---- *)
+  Lemma covers_STATE_INVARIANTS :
+    existsb (fun c => match ce c with EAlways _ => true | _ => false end) (p_traj P) = true -> In f_STATE_INVARIANTS (M.raw P).
+  Proof.
+    intro H. apply existsb_exists in H. destruct H as (c & Hc & Q). eapply raw_traj; [exact Hc|].
+    destruct (ce c); try discriminate. left. reflexivity.
+  Qed.
+  Lemma covers_TRAJECTORY_CONSTRAINTS :
+    existsb (fun c => match ce c with EAlways _ => false | _ => true end) (p_traj P) = true ->
+    In f_TRAJECTORY_CONSTRAINTS (M.raw P).
+  Proof.
+    intro H. apply existsb_exists in H. destruct H as (c & Hc & Q). eapply raw_traj; [exact Hc|].
+    destruct (ce c); try discriminate; left; reflexivity.
+  Qed.
+
+  (* ---- metrics (kinds, gains) ---- *)
+  Lemma metric_feature q f :
+    (forall m, q m = true -> In f (M.metric_feats P m)) -> Spec.some_metric P q = true -> In f (M.raw P).
+  Proof.
+    intros Hq H. unfold Spec.some_metric in H. apply existsb_exists in H. destruct H as (m & Hm & Q).
+    eapply raw_metric; eauto.
+  Qed.
+  Lemma covers_ACTIONS_COST :
+    Spec.some_metric P (fun m => match m with MCosts _ => true | _ => false end) = true -> In f_ACTIONS_COST (M.raw P).
+  Proof. apply metric_feature. intros m Q. destruct m; try discriminate. left. reflexivity. Qed.
+  Lemma covers_FINAL_VALUE :
+    Spec.some_metric P (fun m => match m with MFinalMin _ | MFinalMax _ => true | _ => false end) = true ->
+    In f_FINAL_VALUE (M.raw P).
+  Proof. apply metric_feature. intros m Q. destruct m; try discriminate; left; reflexivity. Qed.
+  Lemma covers_MAKESPAN :
+    Spec.some_metric P (fun m => match m with MMakespan => true | _ => false end) = true -> In f_MAKESPAN (M.raw P).
+  Proof. apply metric_feature. intros m Q. destruct m; try discriminate. left. reflexivity. Qed.
+  Lemma covers_PLAN_LENGTH :
+    Spec.some_metric P (fun m => match m with MLength => true | _ => false end) = true -> In f_PLAN_LENGTH (M.raw P).
+  Proof. apply metric_feature. intros m Q. destruct m; try discriminate. left. reflexivity. Qed.
+  Lemma covers_OVERSUBSCRIPTION :
+    Spec.some_metric P (fun m => match m with MOversub _ _ => true | _ => false end) = true ->
+    In f_OVERSUBSCRIPTION (M.raw P).
+  Proof. apply metric_feature. intros m Q. destruct m; try discriminate. left. reflexivity. Qed.
+  Lemma covers_TEMPORAL_OVERSUBSCRIPTION :
+    Spec.some_metric P (fun m => match m with MTOversub _ _ => true | _ => false end) = true ->
+    In f_TEMPORAL_OVERSUBSCRIPTION (M.raw P).
+  Proof. apply metric_feature. intros m Q. destruct m; try discriminate. left. reflexivity. Qed.
+
+  Lemma gains_int g : existsb (fun b : bool => b) g = true -> In f_INT_NUMBERS_IN_OVERSUBSCRIPTION (M.gains_feats g).
+  Proof.
+    intro H. apply existsb_exists in H. destruct H as (b & Hb & E). subst b. unfold M.gains_feats.
+    eapply fm_in; [exact Hb|]. left. reflexivity.
+  Qed.
+  Lemma gains_real g : existsb negb g = true -> In f_REAL_NUMBERS_IN_OVERSUBSCRIPTION (M.gains_feats g).
+  Proof.
+    intro H. apply existsb_exists in H. destruct H as (b & Hb & E). destruct b; try discriminate. unfold M.gains_feats.
+    eapply fm_in; [exact Hb|]. left. reflexivity.
+  Qed.
+  Lemma covers_INT_OVERSUB :
+    Spec.some_metric P (fun m => match m with MOversub _ g | MTOversub _ g => existsb (fun b => b) g | _ => false end) = true ->
+    In f_INT_NUMBERS_IN_OVERSUBSCRIPTION (M.raw P).
+  Proof.
+    apply metric_feature. intros m Q. destruct m; try discriminate; simpl; right; apply in_or_app; right; apply gains_int; exact Q.
+  Qed.
+  Lemma covers_REAL_OVERSUB :
+    Spec.some_metric P (fun m => match m with MOversub _ g | MTOversub _ g => existsb negb g | _ => false end) = true ->
+    In f_REAL_NUMBERS_IN_OVERSUBSCRIPTION (M.raw P).
+  Proof.
+    apply metric_feature. intros m Q. destruct m; try discriminate; simpl; right; apply in_or_app; right; apply gains_real; exact Q.
+  Qed.
+
+  (* ---- undefined initial values ---- *)
+  Lemma wf_fluent fd : In fd (p_fluents P) -> wf_fdecl fd = true.
+  Proof. destruct wf_parts as (_ & _ & _ & _ & H). rewrite forallb_forall in H. apply H. Qed.
+
+  Lemma undefined_initial fd :
+    In fd (p_fluents P) -> Spec.undefined fd = true ->
+    M.initial_feats fd = [if cnum (class_of (fd_ty fd)) then f_UNDEFINED_INITIAL_NUMERIC else f_UNDEFINED_INITIAL_SYMBOLIC].
+  Proof.
+    intros Hfd U. unfold Spec.undefined in U. apply andb_true_iff in U. destruct U as [D Mi].
+    apply negb_true_iff in D. apply N.ltb_lt in Mi. pose proof (wf_fluent fd Hfd) as W. unfold wf_fdecl in W.
+    apply N.eqb_eq in W. unfold M.initial_feats. rewrite D.
+    destruct (fd_size fd =? fd_inits fd)%N eqn:E; [apply N.eqb_eq in E; lia | reflexivity].
+  Qed.
+  Lemma covers_UNDEFINED_NUMERIC :
+    existsb (fun fd => Spec.is_num (fd_ty fd) && Spec.undefined fd) (p_fluents P) = true ->
+    In f_UNDEFINED_INITIAL_NUMERIC (M.raw P).
+  Proof.
+    intro H. apply existsb_exists in H. destruct H as (fd & Hfd & Q). apply andb_true_iff in Q. destruct Q as [Nm U].
+    apply (raw_initial P fd _ Hfd). rewrite (undefined_initial fd Hfd U).
+    destruct (fd_ty fd); try discriminate; left; reflexivity.
+  Qed.
+  Lemma covers_UNDEFINED_SYMBOLIC :
+    existsb (fun fd => negb (Spec.is_num (fd_ty fd)) && Spec.undefined fd) (p_fluents P) = true ->
+    In f_UNDEFINED_INITIAL_SYMBOLIC (M.raw P).
+  Proof.
+    intro H. apply existsb_exists in H. destruct H as (fd & Hfd & Q). apply andb_true_iff in Q. destruct Q as [Nm U].
+    apply (raw_initial P fd _ Hfd). rewrite (undefined_initial fd Hfd U).
+    destruct (fd_ty fd); try discriminate; left; reflexivity.
+  Qed.
+
+
+  (* ---- static fluents: the documentation's notion (never written) vs. _get_static_and_unused_fluents ---- *)
+  Lemma effect_discarded e : In e (Spec.all_effects P) -> In (ef_fl e) (M.discarded P).
+  Proof.
+    unfold Spec.all_effects, M.discarded. rewrite !in_app_iff, !in_flat_map.
+    intros [(a & Ha & He) | [(ev & Hev & He) | [(pr & Hpr & He) | (te & Hte & He)]]].
+    - left. exists a. split; [exact Ha|]. destruct a as [i|d]; simpl in *.
+      + apply in_or_app. left. unfold M.eff_targets. apply in_map. exact He.
+      + apply in_app_or in He. rewrite !in_app_iff. unfold M.eff_targets.
+        destruct He as [He|He]; [left | right; left]; apply in_map; exact He.
+    - right. left. exists ev. split; [exact Hev|]. unfold M.eff_targets. apply in_map. exact He.
+    - right. right. left. exists pr. split; [exact Hpr|]. unfold M.eff_targets. apply in_map. exact He.
+    - right. right. right. exists te. split; [exact Hte|]. unfold M.eff_targets. apply in_map. exact He.
+  Qed.
+
+  Lemma sim_discarded f : In f (Spec.sim_fluents P) -> In f (M.discarded P).
+  Proof.
+    unfold Spec.sim_fluents, M.discarded. rewrite !in_app_iff, !in_flat_map. intros (a & Ha & Hf).
+    left. exists a. split; [exact Ha|]. destruct a as [i|d]; simpl in *.
+    - apply in_or_app. right. exact Hf.
+    - rewrite !in_app_iff. right. right. exact Hf.
+  Qed.
+
+  Lemma discarded_inv f :
+    In f (M.discarded P) -> (exists e, In e (Spec.all_effects P) /\ ef_fl e = f) \/ In f (Spec.sim_fluents P).
+  Proof.
+    unfold Spec.all_effects, Spec.sim_fluents, M.discarded, M.eff_targets. rewrite !in_app_iff, !in_flat_map.
+    intros [(a & Ha & Hf) | [(ev & Hev & Hf) | [(pr & Hpr & Hf) | (te & Hte & Hf)]]].
+    - destruct a as [i|d]; simpl in Hf.
+      + apply in_app_or in Hf. destruct Hf as [Hf|Hf].
+        * apply in_map_iff in Hf. destruct Hf as (e & E & He). left. exists e. split; [|exact E].
+          rewrite !in_app_iff, !in_flat_map. left. exists (AInst i). split; [exact Ha | exact He].
+        * right. exists (AInst i). split; [exact Ha | exact Hf].
+      + rewrite !in_app_iff in Hf. destruct Hf as [Hf|[Hf|Hf]].
+        * apply in_map_iff in Hf. destruct Hf as (e & E & He). left. exists e. split; [|exact E].
+          rewrite !in_app_iff, !in_flat_map. left. exists (ADur d). split; [exact Ha|]. simpl. apply in_or_app. left. exact He.
+        * apply in_map_iff in Hf. destruct Hf as (e & E & He). left. exists e. split; [|exact E].
+          rewrite !in_app_iff, !in_flat_map. left. exists (ADur d). split; [exact Ha|]. simpl. apply in_or_app. right. exact He.
+        * right. exists (ADur d). split; [exact Ha | exact Hf].
+    - apply in_map_iff in Hf. destruct Hf as (e & E & He). left. exists e. split; [|exact E].
+      rewrite !in_app_iff, !in_flat_map. right. left. exists ev. split; [exact Hev | exact He].
+    - apply in_map_iff in Hf. destruct Hf as (e & E & He). left. exists e. split; [|exact E].
+      rewrite !in_app_iff, !in_flat_map. right. right. left. exists pr. split; [exact Hpr | exact He].
+    - apply in_map_iff in Hf. destruct Hf as (e & E & He). left. exists e. split; [|exact E].
+      rewrite !in_app_iff, !in_flat_map. right. right. right. exists te. split; [exact Hte | exact He].
+  Qed.
+
+  Lemma discarded_writes f : In f (M.discarded P) <-> Spec.writes P f = true.
+  Proof.
+    unfold Spec.writes. rewrite orb_true_iff, existsb_exists, memN_In. split.
+    - intro H. destruct (discarded_inv f H) as [(e & He & E) | Hs]; [left | right; exact Hs].
+      exists e. split; [exact He | apply N.eqb_eq; exact E].
+    - intros [(e & He & E) | Hs]; [|apply sim_discarded; exact Hs].
+      apply N.eqb_eq in E. subst f. apply effect_discarded. exact He.
+  Qed.
+
+  Lemma static_true f : Spec.static P f = true -> M.declared P f = true -> M.static P f = true.
+  Proof.
+    unfold Spec.static, M.static. intros S D. rewrite D. simpl. apply negb_true_iff in S. apply negb_true_iff.
+    apply memN_false. intro H. apply discarded_writes in H. congruence.
+  Qed.
+  Lemma static_false f : Spec.static P f = false -> M.static P f = false.
+  Proof.
+    unfold Spec.static, M.static. intro S. apply negb_false_iff in S. apply discarded_writes in S.
+    apply memN_In in S. rewrite S. apply andb_false_r.
+  Qed.
+
+  Lemma fl_feats_cover fs g (w : bool) A B :
+    In g fs -> M.declared P g = true -> Spec.static P g = w -> In (if w then A else B) (M.fl_feats P fs A B).
+  Proof.
+    intros Hg D S. unfold M.fl_feats. apply in_or_app. destruct w.
+    - left. apply in_clause. apply existsb_exists. exists g. split; [exact Hg | apply static_true; assumption].
+    - right. apply in_clause. apply existsb_exists. exists g. split; [exact Hg|]. rewrite (static_false g S). reflexivity.
+  Qed.
+
+  Lemma mentions_static w e :
+    Spec.mentions_fluent_static P w e = true -> exists g, In g (fluents_of e) /\ Spec.static P g = w.
+  Proof.
+    unfold Spec.mentions_fluent_static. intro H.
+    apply (mentions_fluent_pred (fun g => Bool.eqb (Spec.static P g) w)) in H.
+    destruct H as (g & Hg & E). exists g. split; [exact Hg | apply eqb_prop; exact E].
+  Qed.
+
+  (* ---- fluent-dependent assignments ---- *)
+  Lemma assigns_witness c w :
+    Spec.assigns_from P c w = true ->
+    exists e g t, incl (M.effect_feats P e) (M.raw P) /\ Spec.is_assignment_like e = true
+                  /\ Spec.declared_ty P (ef_fl e) = Some t /\ c (class_of t) = true /\ wf_eff P e = true
+                  /\ In g (fluents_of (ef_val e)) /\ Spec.static P g = w.
+  Proof.
+    unfold Spec.assigns_from. intro H. apply existsb_exists in H. destruct H as (e & He & Q).
+    apply andb_true_iff in Q. destruct Q as [Q Mv]. apply andb_true_iff in Q. destruct Q as [AL TC].
+    apply (mentions_static w) in Mv. destruct Mv as (g & Hg & S).
+    unfold Spec.target_class_is in TC. destruct (Spec.declared_ty P (ef_fl e)) as [t|] eqn:DT; [|discriminate].
+    exists e, g, t. repeat split; auto; [|apply wf_effect; exact He].
+    destruct (effect_in_raw e He) as [(pr & Hpr & Hin) | Hincl]; [|exact Hincl].
+    exfalso. pose proof (wf_process pr e Hpr Hin) as W. unfold wf_process_eff in W. apply andb_true_iff in W.
+    destruct W as [_ W]. unfold Spec.is_assignment_like in AL. destruct (ef_kind e); discriminate.
+  Qed.
+
+  Lemma wf_eff_inv e t :
+    wf_eff P e = true -> Spec.declared_ty P (ef_fl e) = Some t ->
+    class_of t = ef_tcls e /\ compat (ef_tcls e) (ef_vcls e) = true
+    /\ (ef_kind e = KAssign \/ cnum (ef_tcls e) = true)
+    /\ forall g, In g (fluents_of (ef_val e)) -> M.declared P g = true.
+  Proof.
+    unfold wf_eff. intros W DT. rewrite DT in W. repeat (apply andb_true_iff in W; destruct W as [W ?]).
+    repeat split.
+    - destruct (class_of t), (ef_tcls e); try discriminate; reflexivity.
+    - assumption.
+    - destruct (ef_kind e); auto.
+    - intros g Hg. rewrite forallb_forall in H. apply H. exact Hg.
+  Qed.
+
+  Lemma covers_NUMERIC_ASSIGN w :
+    Spec.assigns_from P cnum w = true ->
+    In (if w then f_STATIC_FLUENTS_IN_NUMERIC_ASSIGNMENTS else f_FLUENTS_IN_NUMERIC_ASSIGNMENTS) (M.raw P).
+  Proof.
+    intro H. destruct (assigns_witness _ _ H) as (e & g & t & Hincl & AL & DT & C & W & Hg & S).
+    destruct (wf_eff_inv e t W DT) as (TC & CP & KN & DEC). apply Hincl.
+    pose proof (fl_feats_cover _ g w f_STATIC_FLUENTS_IN_NUMERIC_ASSIGNMENTS f_FLUENTS_IN_NUMERIC_ASSIGNMENTS Hg (DEC g Hg) S) as F.
+    assert (NC : is_num_const (ef_val e) = false).
+    { destruct (is_num_const (ef_val e)) eqn:E; [|reflexivity]. rewrite (num_const_no_fluent _ E) in Hg. destruct Hg. }
+    rewrite TC in C. unfold M.effect_feats. cbv zeta. rewrite !in_app_iff. right. right.
+    unfold Spec.is_assignment_like in AL. destruct (ef_kind e); try discriminate.
+    - destruct (ef_tcls e), (ef_vcls e); try discriminate; apply in_or_app; right; exact F.
+    - rewrite NC. right. apply in_or_app. right. exact F.
+    - rewrite NC. right. apply in_or_app. right. exact F.
+  Qed.
+  Lemma covers_BOOLEAN_ASSIGN w :
+    Spec.assigns_from P Spec.cbool w = true ->
+    In (if w then f_STATIC_FLUENTS_IN_BOOLEAN_ASSIGNMENTS else f_FLUENTS_IN_BOOLEAN_ASSIGNMENTS) (M.raw P).
+  Proof.
+    intro H. destruct (assigns_witness _ _ H) as (e & g & t & Hincl & AL & DT & C & W & Hg & S).
+    destruct (wf_eff_inv e t W DT) as (TC & CP & KN & DEC). apply Hincl.
+    pose proof (fl_feats_cover _ g w f_STATIC_FLUENTS_IN_BOOLEAN_ASSIGNMENTS f_FLUENTS_IN_BOOLEAN_ASSIGNMENTS Hg (DEC g Hg) S) as F.
+    rewrite TC in C. unfold M.effect_feats. cbv zeta. rewrite !in_app_iff. right. right.
+    destruct (ef_tcls e); try discriminate. destruct KN as [K|K]; [|discriminate]. rewrite K.
+    destruct (ef_vcls e); try discriminate. apply in_or_app. right. exact F.
+  Qed.
+  Lemma covers_OBJECT_ASSIGN w :
+    Spec.assigns_from P Spec.cuser w = true ->
+    In (if w then f_STATIC_FLUENTS_IN_OBJECT_ASSIGNMENTS else f_FLUENTS_IN_OBJECT_ASSIGNMENTS) (M.raw P).
+  Proof.
+    intro H. destruct (assigns_witness _ _ H) as (e & g & t & Hincl & AL & DT & C & W & Hg & S).
+    destruct (wf_eff_inv e t W DT) as (TC & CP & KN & DEC). apply Hincl.
+    pose proof (fl_feats_cover _ g w f_STATIC_FLUENTS_IN_OBJECT_ASSIGNMENTS f_FLUENTS_IN_OBJECT_ASSIGNMENTS Hg (DEC g Hg) S) as F.
+    rewrite TC in C. unfold M.effect_feats. cbv zeta. rewrite !in_app_iff. right. right.
+    destruct (ef_tcls e); try discriminate. destruct KN as [K|K]; [|discriminate]. rewrite K.
+    destruct (ef_vcls e); try discriminate. apply in_or_app. right. exact F.
+  Qed.
+
+
+  (* ---- durations ---- *)
+  Lemma duration_inv d :
+    In d (Spec.durations P) -> exists a, In (ADur a) (p_actions P) /\ (d = da_lo a \/ d = da_hi a).
+  Proof.
+    unfold Spec.durations. intro H. apply in_flat_map in H. destruct H as (a & Ha & Hd).
+    destruct a as [i|a]; [destruct Hd|]. exists a. split; [exact Ha|]. destruct Hd as [<-|[<-|[]]]; auto.
+  Qed.
+  Lemma wf_duration d g : In d (Spec.durations P) -> In g (fluents_of (de d)) -> M.declared P g = true.
+  Proof.
+    destruct wf_parts as (_ & _ & H & _). rewrite forallb_forall in H. intros Hd Hg. specialize (H d Hd).
+    rewrite forallb_forall in H. apply H. exact Hg.
+  Qed.
+  Lemma duration_feature a f : In (ADur a) (p_actions P) -> In f (M.duration_feats P (da_lo a) (da_hi a)) -> In f (M.raw P).
+  Proof.
+    intros Ha Hf. apply (raw_action P _ f Ha). simpl. unfold M.daction_feats. rewrite !in_app_iff. right. right. left. exact Hf.
+  Qed.
+
+  Lemma covers_FLUENTS_IN_DURATIONS w :
+    existsb (fun d => Spec.mentions_fluent_static P w (de d)) (Spec.durations P) = true ->
+    In (if w then f_STATIC_FLUENTS_IN_DURATIONS else f_FLUENTS_IN_DURATIONS) (M.raw P).
+  Proof.
+    intro H. apply existsb_exists in H. destruct H as (d & Hd & Q). apply mentions_static in Q. destruct Q as (g & Hg & S).
+    pose proof (wf_duration d g Hd Hg) as D. destruct (duration_inv d Hd) as (a & Ha & E).
+    apply (duration_feature a _ Ha). unfold M.duration_feats. rewrite !in_app_iff. do 4 right.
+    apply fl_feats_cover with (g := g); auto. apply in_or_app. destruct E; subst d; auto.
+  Qed.
+  Lemma covers_IFUN_DURATIONS :
+    existsb (fun d => mentions is_ifun (de d)) (Spec.durations P) = true -> In f_INTERPRETED_FUNCTIONS_IN_DURATIONS (M.raw P).
+  Proof.
+    intro H. apply existsb_exists in H. destruct H as (d & Hd & Q). apply mentions_ops in Q. destruct Q as (x & Px & Ix).
+    destruct x; try discriminate. destruct (duration_inv d Hd) as (a & Ha & E).
+    apply (duration_feature a _ Ha). unfold M.duration_feats. rewrite !in_app_iff. right. right. right. left.
+    apply in_clause. apply memN_In. apply in_or_app. destruct E; subst d; auto.
+  Qed.
+  Lemma covers_INT_TYPE_DURATIONS :
+    existsb (fun d => match de_cls d with CInt => true | _ => false end) (Spec.durations P) = true ->
+    In f_INT_TYPE_DURATIONS (M.raw P).
+  Proof.
+    intro H. apply existsb_exists in H. destruct H as (d & Hd & Q). destruct (duration_inv d Hd) as (a & Ha & E).
+    apply (duration_feature a _ Ha). unfold M.duration_feats. rewrite !in_app_iff.
+    destruct E; subst d; [left | right; left]; unfold M.bound_feats;
+      match goal with |- context [de_cls ?x] => destruct (de_cls x) end; try discriminate; left; reflexivity.
+  Qed.
+  Lemma covers_REAL_TYPE_DURATIONS :
+    existsb (fun d => match de_cls d with CReal => true | _ => false end) (Spec.durations P) = true ->
+    In f_REAL_TYPE_DURATIONS (M.raw P).
+  Proof.
+    intro H. apply existsb_exists in H. destruct H as (d & Hd & Q). destruct (duration_inv d Hd) as (a & Ha & E).
+    apply (duration_feature a _ Ha). unfold M.duration_feats. rewrite !in_app_iff.
+    destruct E; subst d; [left | right; left]; unfold M.bound_feats;
+      match goal with |- context [de_cls ?x] => destruct (de_cls x) end; try discriminate; left; reflexivity.
+  Qed.
+  Lemma covers_DURATION_INEQUALITIES :
+    existsb (fun a => match a with ADur d => negb (expr_eqb (de (da_lo d)) (de (da_hi d))) | _ => false end) (p_actions P) = true ->
+    In f_DURATION_INEQUALITIES (M.raw P).
+  Proof.
+    intro H. apply existsb_exists in H. destruct H as (a & Ha & Q). destruct a as [i|a]; [discriminate|].
+    apply (duration_feature a _ Ha). unfold M.duration_feats. rewrite !in_app_iff. right. right. left.
+    apply in_clause. exact Q.
+  Qed.
+
+  (* ---- action costs ---- *)
+  Lemma cost_inv c : In c (Spec.costs P) -> exists cs, In (MCosts cs) (p_metrics P) /\ In c cs.
+  Proof.
+    unfold Spec.costs. intro H. apply in_flat_map in H. destruct H as (m & Hm & Hc).
+    destruct m; try (destruct Hc; fail). eauto.
+  Qed.
+  Lemma wf_cost c g : In c (Spec.costs P) -> In g (fluents_of (ce (fst c))) -> M.declared P g = true.
+  Proof.
+    destruct wf_parts as (_ & _ & _ & H & _). rewrite forallb_forall in H. intros Hd Hg. specialize (H c Hd).
+    rewrite forallb_forall in H. apply H. exact Hg.
+  Qed.
+  Lemma cost_feature c f :
+    In c (Spec.costs P) ->
+    In f (match snd c with CInt => [f_INT_NUMBERS_IN_ACTIONS_COST] | CReal => [f_REAL_NUMBERS_IN_ACTIONS_COST] | _ => [] end
+          ++ flat_map (fun g => if M.static P g then [f_STATIC_FLUENTS_IN_ACTIONS_COST] else [f_FLUENTS_IN_ACTIONS_COST])
+                      (fluents_of (ce (fst c)))) ->
+    In f (M.raw P).
+  Proof.
+    intros Hc Hf. destruct (cost_inv c Hc) as (cs & Hm & Hin). apply (raw_metric P _ f Hm). simpl. right.
+    eapply fm_in; [exact Hin|]. apply in_or_app. right. exact Hf.
+  Qed.
+  Lemma covers_FLUENTS_IN_ACTIONS_COST w :
+    existsb (fun c => Spec.mentions_fluent_static P w (ce (fst c))) (Spec.costs P) = true ->
+    In (if w then f_STATIC_FLUENTS_IN_ACTIONS_COST else f_FLUENTS_IN_ACTIONS_COST) (M.raw P).
+  Proof.
+    intro H. apply existsb_exists in H. destruct H as (c & Hc & Q). apply mentions_static in Q. destruct Q as (g & Hg & S).
+    apply (cost_feature c _ Hc). apply in_or_app. right. eapply fm_in; [exact Hg|].
+    destruct w; [rewrite (static_true g S (wf_cost c g Hc Hg)) | rewrite (static_false g S)]; left; reflexivity.
+  Qed.
+  Lemma covers_INT_COST :
+    existsb (fun c : cexpr * vclass => match snd c with CInt => true | _ => false end) (Spec.costs P) = true ->
+    In f_INT_NUMBERS_IN_ACTIONS_COST (M.raw P).
+  Proof.
+    intro H. apply existsb_exists in H. destruct H as (c & Hc & Q). apply (cost_feature c _ Hc). apply in_or_app. left.
+    destruct (snd c); try discriminate. left. reflexivity.
+  Qed.
+  Lemma covers_REAL_COST :
+    existsb (fun c : cexpr * vclass => match snd c with CReal => true | _ => false end) (Spec.costs P) = true ->
+    In f_REAL_NUMBERS_IN_ACTIONS_COST (M.raw P).
+  Proof.
+    intro H. apply existsb_exists in H. destruct H as (c & Hc & Q). apply (cost_feature c _ Hc). apply in_or_app. left.
+    destruct (snd c); try discriminate. left. reflexivity.
+  Qed.
+
+
+  (* ---- used fluents: every state position is seen by remove_used_fluents ---- *)
+  Lemma conds_used_in c cs : In c cs -> incl (fluents_of (ce c)) (M.conds_used cs).
+  Proof. intros Hc f Hf. unfold M.conds_used. eapply fm_in; eauto. Qed.
+
+  Ltac in_used := unfold M.used; rewrite !in_app_iff, !in_flat_map.
+
+  Lemma eff_used_in e : In e (Spec.all_effects P) -> incl (M.eff_used e) (M.used P).
+  Proof.
+    unfold Spec.all_effects. rewrite !in_app_iff, !in_flat_map.
+    intros [(a & Ha & He) | [(ev & Hev & He) | [(pr & Hpr & He) | (te & Hte & He)]]] f Hf; in_used.
+    - left. exists a. split; [exact Ha|]. destruct a as [i|d]; simpl in *.
+      + apply in_or_app. right. unfold M.effs_used. eapply fm_in; eauto.
+      + apply in_app_or in He. rewrite !in_app_iff. destruct He as [He|He]; [right; left | right; right];
+          unfold M.effs_used; eapply fm_in; eauto.
+    - right. left. exists ev. split; [exact Hev|]. apply in_or_app. right. unfold M.effs_used. eapply fm_in; eauto.
+    - right. right. left. exists pr. split; [exact Hpr|]. apply in_or_app. right. unfold M.effs_used. eapply fm_in; eauto.
+    - right. right. right. left. exists te. split; [exact Hte|]. unfold M.effs_used. eapply fm_in; eauto.
+  Qed.
+
+  Lemma condition_used x : In x (Spec.conditions P) -> incl (fluents_of x) (M.used P).
+  Proof.
+    unfold Spec.conditions. rewrite !in_app_iff, !in_flat_map, !in_map_iff.
+    intros [(a & Ha & Hx) | [(ev & Hev & Hx) | [(pr & Hpr & Hx) | [(e & Ex & He) | [(g & Ex & Hg) |
+            [(tg & Htg & Hx) | [(tc & Ex & Htc) | (m & Hm & Hx)]]]]]]] f Hf.
+    - in_used. left. exists a. split; [exact Ha|]. destruct a as [i|d]; simpl in Hx; apply in_map_iff in Hx.
+      + destruct Hx as (c & E & Hc). subst x. apply in_or_app. left. eapply conds_used_in; eauto.
+      + destruct Hx as ((iv & c) & E & Hc). simpl in E. subst x. rewrite !in_app_iff. left.
+        apply (conds_used_in c); [|exact Hf]. apply in_map_iff. exists (iv, c). auto.
+    - in_used. right. left. exists ev. split; [exact Hev|]. apply in_map_iff in Hx. destruct Hx as (c & E & Hc). subst x.
+      apply in_or_app. left. eapply conds_used_in; eauto.
+    - in_used. right. right. left. exists pr. split; [exact Hpr|]. apply in_map_iff in Hx. destruct Hx as (c & E & Hc).
+      subst x. apply in_or_app. left. eapply conds_used_in; eauto.
+    - apply (eff_used_in e He). subst x. unfold M.eff_used. rewrite !in_app_iff. right. right. exact Hf.
+    - in_used. do 6 right. left. subst x. eapply conds_used_in; eauto.
+    - in_used. do 4 right. left. exists tg. split; [exact Htg|]. apply in_map_iff in Hx. destruct Hx as (c & E & Hc).
+      subst x. eapply conds_used_in; eauto.
+    - in_used. do 5 right. left. subst x. eapply conds_used_in; eauto.
+    - in_used. do 7 right. exists m. split; [exact Hm|].
+      destruct m; simpl in Hx; try (destruct Hx; fail); apply in_map_iff in Hx; destruct Hx as (c & E & Hc); subst x;
+        eapply conds_used_in; eauto.
+  Qed.
+
+  Lemma state_used x : In x (Spec.state_exprs P) -> incl (fluents_of x) (M.used P).
+  Proof.
+    unfold Spec.state_exprs. rewrite !in_app_iff, !in_flat_map.
+    intros [Hc | [(e & He & Hx) | (m & Hm & Hx)]] f Hf.
+    - eapply condition_used; eauto.
+    - apply (eff_used_in e He). unfold M.eff_used. rewrite !in_app_iff.
+      destruct Hx as [<-|[<-|[]]]; [left | right; left]; exact Hf.
+    - in_used. do 7 right. exists m. split; [exact Hm|]. destruct m; simpl in Hx; try (destruct Hx; fail);
+        destruct Hx as [<-|[]]; exact Hf.
+  Qed.
+
+  Lemma counts_model f :
+    Spec.counts P f = true ->
+    negb (M.unused P f) || (negb (M.in_durations P f) && negb (M.in_costs P f)) = true.
+  Proof.
+    unfold Spec.counts. intro H. apply orb_true_iff in H. apply orb_true_iff. destruct H as [H|H].
+    - left. apply negb_true_iff. unfold M.unused. unfold Spec.occurs_state in H. apply orb_true_iff in H. destruct H as [H|H].
+      + change (Spec.has_sim P) with (M.cleared P) in H. rewrite H. simpl. rewrite andb_false_r. reflexivity.
+      + apply existsb_exists in H. destruct H as (x & Hx & Mx). apply mentions_fluents_of in Mx.
+        pose proof (state_used x Hx f Mx) as U. apply memN_In in U. rewrite U. apply andb_false_r.
+    - right. apply negb_true_iff in H. unfold Spec.occurs_dur_or_cost in H. apply orb_false_iff in H. destruct H as [HD HC].
+      apply andb_true_iff. split; apply negb_true_iff.
+      + destruct (M.in_durations P f) eqn:E; [|reflexivity]. exfalso. unfold M.in_durations in E. apply memN_In in E.
+        apply in_flat_map in E. destruct E as (a & Ha & Hf). destruct a as [i|d]; [destruct Hf|].
+        assert (X : existsb (fun d => mentions (is_fluent_sym f) (de d)) (Spec.durations P) = true); [|congruence].
+        apply in_app_or in Hf. apply existsb_exists.
+        destruct Hf as [Hf|Hf]; [exists (da_lo d) | exists (da_hi d)]; (split; [|apply fluents_of_mentions; exact Hf]);
+          unfold Spec.durations; (eapply fm_in; [exact Ha|]); simpl; auto.
+      + destruct (M.in_costs P f) eqn:E; [|reflexivity]. exfalso. unfold M.in_costs in E. apply memN_In in E.
+        apply in_flat_map in E. destruct E as (m & Hm & Hf). destruct m; try (destruct Hf; fail).
+        apply in_flat_map in Hf. destruct Hf as (c & Hc & Hf).
+        assert (X : existsb (fun c => mentions (is_fluent_sym f) (ce (fst c))) (Spec.costs P) = true); [|congruence].
+        apply existsb_exists. exists c. split; [|apply fluents_of_mentions; exact Hf].
+        unfold Spec.costs. eapply fm_in; [exact Hm|]. exact Hc.
+  Qed.
+
+  Lemma covers_INT_FLUENTS :
+    existsb (fun fd => Spec.is_int (fd_ty fd) && Spec.counts P (fd_id fd)) (p_fluents P) = true -> In f_INT_FLUENTS (M.raw P).
+  Proof.
+    intro H. apply existsb_exists in H. destruct H as (fd & Hfd & Q). apply andb_true_iff in Q. destruct Q as [T C].
+    apply (raw_fluent P fd _ Hfd). unfold M.fluent_feats. cbv zeta. rewrite !in_app_iff. right. left.
+    destruct (fd_ty fd); try discriminate. apply in_or_app. right. rewrite (counts_model _ C). left. reflexivity.
+  Qed.
+  Lemma covers_REAL_FLUENTS :
+    existsb (fun fd => Spec.is_real (fd_ty fd) && Spec.counts P (fd_id fd)) (p_fluents P) = true -> In f_REAL_FLUENTS (M.raw P).
+  Proof.
+    intro H. apply existsb_exists in H. destruct H as (fd & Hfd & Q). apply andb_true_iff in Q. destruct Q as [T C].
+    apply (raw_fluent P fd _ Hfd). unfold M.fluent_feats. cbv zeta. rewrite !in_app_iff. right. left.
+    destruct (fd_ty fd); try discriminate. apply in_or_app. right. rewrite (counts_model _ C). left. reflexivity.
+  Qed.
+
+End Positions.
+
+(* ============================================================================================== main result *)
+Ltac feature_ne := let E := fresh "E" in intro E; vm_compute in E; discriminate E.
+
+Theorem covers : forall P, wf P -> incl (spec_features P) (kind_model P).
+Proof.
+  intros P WF. unfold spec_features, Spec.spec_features, kind_model, M.kind_model.
+  assert (K : forall f b, f <> f_CONTINUOUS_TIME -> (b = true -> In f (M.raw P)) ->
+                          incl (clause f b) (M.finalize P (M.raw P) (M.snp_unset P))).
+  { intros f b Hne H. apply clause_incl. intro E. apply finalize_keeps; auto. }
+  repeat apply incl_app; (apply K; [feature_ne | intro E]).
+  all: first
+    [ exact (covers_FLAT P WF E) | exact (covers_HIERARCHICAL P WF E)
+    | exact (covers_INT_FLUENTS P E) | exact (covers_REAL_FLUENTS P E) | exact (covers_OBJECT_FLUENTS P E)
+    | exact (covers_BOOL_FLUENT_PARAMETERS P E) | exact (covers_BOUNDED_INT_FLUENT_PARAMETERS P E)
+    | exact (covers_BOOL_ACTION_PARAMETERS P E) | exact (covers_BOUNDED_INT_ACTION_PARAMETERS P E)
+    | exact (covers_UNBOUNDED_INT_ACTION_PARAMETERS P E) | exact (covers_REAL_ACTION_PARAMETERS P E)
+    | exact (covers_BOUNDED_TYPES P E)
+    | exact (covers_NEGATIVE P WF E) | exact (covers_DISJUNCTIVE P WF E) | exact (covers_EQUALITIES P WF E)
+    | exact (covers_EXISTENTIAL P WF E) | exact (covers_UNIVERSAL P WF E) | exact (covers_IFUN_COND P WF E)
+    | exact (covers_CONDITIONAL P WF E) | exact (covers_FORALL_EFFECTS P WF E) | exact (covers_INCREASE P WF E)
+    | exact (covers_DECREASE P WF E) | exact (covers_INCREASE_CONTINUOUS P E) | exact (covers_DECREASE_CONTINUOUS P E)
+    | exact (covers_BOOLEAN_ASSIGN P WF true E) | exact (covers_NUMERIC_ASSIGN P WF true E)
+    | exact (covers_OBJECT_ASSIGN P WF true E)
+    | exact (covers_BOOLEAN_ASSIGN P WF false E) | exact (covers_NUMERIC_ASSIGN P WF false E)
+    | exact (covers_OBJECT_ASSIGN P WF false E)
+    | exact (covers_FLUENTS_IN_DURATIONS P WF true E) | exact (covers_FLUENTS_IN_DURATIONS P WF false E)
+    | exact (covers_IFUN_DURATIONS P E) | exact (covers_INT_TYPE_DURATIONS P E) | exact (covers_REAL_TYPE_DURATIONS P E)
+    | exact (covers_DURATION_INEQUALITIES P E)
+    | exact (raw_teffs_flag P E) | exact (raw_tgoals_flag P E) | exact (raw_processes_flag P E) | exact (raw_events_flag P E)
+    | exact (covers_STATE_INVARIANTS P E) | exact (covers_TRAJECTORY_CONSTRAINTS P E)
+    | exact (covers_ACTIONS_COST P E) | exact (covers_FINAL_VALUE P E) | exact (covers_MAKESPAN P E)
+    | exact (covers_PLAN_LENGTH P E) | exact (covers_OVERSUBSCRIPTION P E) | exact (covers_TEMPORAL_OVERSUBSCRIPTION P E)
+    | exact (covers_FLUENTS_IN_ACTIONS_COST P WF true E) | exact (covers_FLUENTS_IN_ACTIONS_COST P WF false E)
+    | exact (covers_INT_COST P E) | exact (covers_REAL_COST P E)
+    | exact (covers_INT_OVERSUB P E) | exact (covers_REAL_OVERSUB P E)
+    | exact (covers_UNDEFINED_NUMERIC P WF E) | exact (covers_UNDEFINED_SYMBOLIC P WF E) ].
+Qed.
+
+Lemma covers_supported P supported : wf P -> incl (kind_model P) supported -> incl (spec_features P) supported.
+Proof. intros WF H. eapply incl_tran; [apply covers; exact WF | exact H]. Qed.
+
+Lemma static_agree P f : M.declared P f = true -> M.static P f = Spec.static P f.
+Proof.
+  intro D. destruct (Spec.static P f) eqn:S; [apply static_true | apply static_false]; assumption.
+Qed.
+
+Lemma extractors_spec e :
+  (forall p, mentions p e = true -> exists x, p x = true /\ In (tag x) (ops_of e))
+  /\ (forall f, mentions (is_fluent_sym f) e = true <-> In f (fluents_of e)).
+Proof.
+  split; [intros p; apply mentions_ops|]. intro f. split; [apply mentions_fluents_of | apply fluents_of_mentions].
+Qed.
